@@ -27,7 +27,7 @@ ROOT = os.path.dirname(os.path.dirname(os.path.abspath(__file__)))
 COQ = os.path.join(ROOT, "coq")
 HARNESS = os.path.join(ROOT, "harness")
 BUILD = os.path.join(ROOT, "build")
-BIN = os.path.join(BUILD, "bin", "harness")
+BINDIR = os.path.join(BUILD, "bin")
 REPO = os.environ.get("VERIF_REPO", "/repo")
 NCPU = os.cpu_count() or 4
 
@@ -155,20 +155,28 @@ def property_obligations(pid, timeout=900):
 
 # ------------------------------------------------------------------ Go side
 
-def build_harness(timeout=1200):
+def harness_bin(pid):
+    return os.path.join(BINDIR, "harness-" + pid.lower())
+
+
+def build_harness(pid, timeout=1200, race=False):
+    """One binary per property (cmd/cXX), rebuilt from /repo's working tree on every run."""
     with Lock("harness"):
-        os.makedirs(os.path.dirname(BIN), exist_ok=True)
+        os.makedirs(BINDIR, exist_ok=True)
         try:
             shutil.copyfile(os.path.join(REPO, "go.sum"), os.path.join(HARNESS, "go.sum"))
         except OSError:
             pass
-        rc, out, wall = sh(["go", "build", "-tags", "verif", "-o", BIN, "./cmd/harness"],
-                           cwd=HARNESS, timeout=timeout, env=goenv())
+        cmd = ["go", "build", "-tags", "verif"]
+        if race:
+            cmd.append("-race")
+        cmd += ["-o", harness_bin(pid), "./cmd/" + pid.lower()]
+        rc, out, wall = sh(cmd, cwd=HARNESS, timeout=timeout, env=goenv())
         return rc, out, wall
 
 
-def run_harness(args, timeout=1800):
-    return sh([BIN] + args, timeout=timeout, env=goenv())
+def run_harness(pid, args, timeout=1800):
+    return sh([harness_bin(pid)] + args, timeout=timeout, env=goenv())
 
 
 def eval_shards(rundir, timeout=1800):
@@ -303,7 +311,7 @@ class Check:
                 self.broken.append("generated-obligation: " + msg)
 
     def gen_and_eval(self, replay=None):
-        rc, out, wall = build_harness()
+        rc, out, wall = build_harness(self.pid, race=self.cfg.get("race", False))
         if rc != 0:
             self.broken.append("harness does not build against /repo: " + out[-800:])
             return None
@@ -313,7 +321,7 @@ class Check:
         else:
             args = ["gen", self.pid, "-seed", str(self.seed), "-tier", self.tier, "-out", self.rundir,
                     "-shards", str(shards), "-corpus", os.path.join(ROOT, "corpus", self.pid)]
-        rc, out, wall = run_harness(args, timeout=self.cfg.get("gen_timeout", 2400))
+        rc, out, wall = run_harness(self.pid, args, timeout=self.cfg.get("gen_timeout", 2400))
         self.cov["impl_wall_s"] = round(wall, 2)
         if rc != 0:
             self.broken.append("harness run failed (rc=%d): %s" % (rc, out[-1200:]))
@@ -334,7 +342,7 @@ class Check:
             tmp = os.path.join(sdir, "cur.json")
             os.makedirs(sdir, exist_ok=True)
             json.dump({"case": cur["input"]}, open(tmp, "w"))
-            rc, out, _ = run_harness(["shrink", self.pid, "-file", tmp, "-out", sdir], timeout=600)
+            rc, out, _ = run_harness(self.pid, ["shrink", self.pid, "-file", tmp, "-out", sdir], timeout=600)
             if rc != 0:
                 break
             cands = load_cases(sdir)
@@ -482,10 +490,14 @@ def setup():
     if rc != 0:
         print("coq build failed")
         return 1
-    rc, out, wall = build_harness()
-    print(out[-2000:])
-    if rc != 0:
-        print("harness build failed")
-        return 1
+    import props
+    for pid in sorted(props.PROPS):
+        if not props.PROPS[pid].get("harness", True):
+            continue
+        rc, out, wall = build_harness(pid, race=props.PROPS[pid].get("race", False))
+        if rc != 0:
+            print(out[-2000:])
+            print("harness build failed for", pid)
+            return 1
     print("setup done in %.1fs" % (time.time() - t0))
     return 0
